@@ -200,7 +200,7 @@ Definition gen_node (d : dst) (parent_anc : option (list name)) (k : name) : gen
 
 Definition parent_status (nd : dnode) (dep : name) (dst_ : status) : dnode :=
   match dst_ with
-  | SFailure => nd_bad nd (dn_bad nd ++ [dep]) (dn_ign nd)
+  | SFailure | SFailureV => nd_bad nd (dn_bad nd ++ [dep]) (dn_ign nd)
   | SIgnore => nd_bad nd (dn_bad nd) (dn_ign nd ++ [dep])
   | _ => nd end.
 
@@ -459,11 +459,13 @@ Definition emit (r : rstate) (e : list event) : rstate := with_d r (emitd (r_d r
 Definition set_status (d : dst) (k : name) (s : status) : dst := set_node d k (nd_st (node_of d k) s).
 Definition task_of (r : rstate) (k : name) : task := dt (dn_task (node_of (r_d r) k)).
 
-Definition handle_error (r : rstate) (k : name) (kind : N) : rstate :=
-  {| r_d := emitd (set_status (r_d r) k SFailure) [Ev (ERemove k); Ev (EFailure k kind)];
+(* [st] = SFailure, or SFailureV when the task's values are set (see Model/Runner.v) *)
+Definition handle_error_gen (st : status) (r : rstate) (k : name) (kind : N) : rstate :=
+  {| r_d := emitd (set_status (r_d r) k st) [Ev (ERemove k); Ev (EFailure k kind)];
      r_final := if (kind =? kind_failed) && negb (r_final r =? 2) then 1 else 2;
      r_stop := if continue_ then r_stop r else true;
      r_td := r_td r |}.
+Definition handle_error := handle_error_gen SFailure.
 
 Definition get_args (r : rstate) (k : name) : bool * rstate :=
   if t_argerr (task_of r k) then (false, handle_error r k kind_dep) else (true, r).
@@ -502,8 +504,9 @@ Definition process_result (r : rstate) (k : name) : rstate :=
   | OOk => emit (with_d r (set_status (r_d r) k SSuccess)) [ESave k; ESuccess k]
   | OFail => handle_error r k kind_failed
   | OError => handle_error r k kind_error
-  | OSaveErr => handle_error r k kind_dep
+  | OSaveErr => handle_error_gen SFailureV r k kind_dep
   | OInterrupt => r
+  | OFailV => handle_error_gen SFailureV r k kind_failed
   end.
 Definition is_interrupt (r : rstate) (k : name) : bool :=
   match t_outcome (task_of r k) with OInterrupt => true | _ => false end.
